@@ -822,7 +822,7 @@ def bridged_chains(draw, dist=(2000, 2499)):
     return ents, {"direction": d, "length_mA": length, "offset_mA": off}
 
 
-def with_alternate_location(entries, pick, renumber_from=None):
+def with_alternate_location(entries, pick, renumber_from=None, add=True):
     """Copy of ``entries`` in which one protein residue (the ``pick``-th with side-chain atoms) carries its side chain
     twice, as alternate locations A and B (B displaced by a few hundredths of an Angstrom), so that the input has two
     conformations.  With ``renumber_from`` every chain is first renumbered consecutively from that number, which makes
@@ -838,7 +838,7 @@ def with_alternate_location(entries, pick, renumber_from=None):
     cands = [ats for (m, c, n, i, t), ats in pdbio.residues(ents)
              if ats[0].rec == "ATOM" and all(a.alt == " " for a in ats)
              and any(a.aname not in pdbio.BACKBONE and a.aname not in pdbio.TERMINAL_O for a in ats)]
-    if not cands:
+    if not cands or not add:
         return ents, False
     ats = cands[pick % len(cands)]
     side = [a for a in ats if a.aname not in pdbio.BACKBONE and a.aname not in pdbio.TERMINAL_O]
